@@ -34,6 +34,10 @@ TECHNIQUE += "; evaluation of _convert_convention_shell / convert_conventions on
 EXPLANATION += ' R2-R4 no longer match statement templates: _convert_convention_shell is interpreted on every pair of repository convention tables that share a key (both directions), on 864 synthetic signed re-orderings of three labels and on 12 ill-formed pairs; convert_conventions on an abstract 5-shell basis; results are compared with the definition in the docstring (independent oracle in the rule).'
 TRUSTED = ["CPython ast parser", "list.index returns the first position of an element", "numpy fancy indexing a[p] places a[p[i]] at position i"]
 EXPLANATION += " (R6) order and signs of every format's convention table equal the frozen specification (spec/conventions.json)."
+# --- metadata added for batch 7
+TECHNIQUE += '; evaluated coefficient path and overlap tail borrowed from C01 / C06'
+EXPLANATION += ' Added: (R8, R9) the evaluated clauses C01-R4 / C01-R9 (written coefficient rows are signs[r] x rows[permutation[r]]); (R10) the tail of compute_overlap evaluated on a symbolic matrix (C06-R3): returned[i, j] = s_row[i] s_col[j] internal[p_row[i], p_col[j]], signs applied after the rows were moved. R5 accepts an index built from the permutation (np.ix_, take); R1 / R3 evaluate PRIMITIVE_NAMES, ANGMOM_CHARS, angmom_sti / angmom_its and the default of `reverse`.'
+# --- end metadata batch 7
 
 
 def run(ctx):
